@@ -105,6 +105,7 @@ class Harness:
         else:
             self.expl = IncrementalPFI(self.model, self.loss, self.names_arg, **kw)
         self.t = 0
+        self.prefilled = False
 
     def explain(self, x, y, **kw):
         """One explain_one call; returns (return value, events of this call)."""
